@@ -9,10 +9,10 @@ Open Scope Z_scope.
 (** ** Writers never wait for subscribers *)
 
 (** what a writer's tree write can depend on: the cache (leaf store, delete
-    store, tree, pending lists), the read locks held by walks, and the
+    store, tree, pending lists, write mutexes held by writers), the read locks held by walks, and the
     registered subscription paths (only for the [h_agree] side condition) *)
 Definition writer_view (st : state) :=
-  (st_leaves st, st_dels st, st_tree st, st_feeds st, map walk_target (st_subs st), map s_qs (st_subs st)).
+  (st_leaves st, st_dels st, st_tree st, st_feeds st, st_locks st, map walk_target (st_subs st), map s_qs (st_subs st)).
 
 Lemma tree_locked_view st st' t :
   map walk_target (st_subs st) = map walk_target (st_subs st') -> tree_locked st t = tree_locked st' t.
@@ -22,12 +22,8 @@ Proof.
   inversion H. rewrite H1. f_equal. auto.
 Qed.
 
-Lemma in_flight_other_view st st' w t :
-  st_leaves st = st_leaves st' -> st_dels st = st_dels st' -> st_feeds st = st_feeds st' ->
-  in_flight_other st w t = in_flight_other st' w t.
-Proof.
-  intros A B C. unfold in_flight_other, feed_of, item_target, item_pat, leaf_path. rewrite A, B, C. reflexivity.
-Qed.
+Lemma may_lock_view st st' w t : st_locks st = st_locks st' -> may_lock st w t = may_lock st' w t.
+Proof. intros A. unfold may_lock, held_by_other, lock_of. rewrite A. reflexivity. Qed.
 
 (** Enabledness of a writer's tree write is a function of the writer view:
     queues, in-flight responses, sent streams, stalls and timeouts of
@@ -36,12 +32,16 @@ Theorem writer_never_blocked h st st' w o :
   writer_view st = writer_view st' ->
   (step h st (LWrite w o) = None <-> step h st' (LWrite w o) = None).
 Proof.
-  unfold writer_view. intros H. inversion H as [[A B C D E F]].
+  unfold writer_view. intros H. inversion H as [[A B C D K E F]].
   assert (AG : forall p, agree_on st p = agree_on st' p) by (intros p; apply agree_on_ext; exact F).
   assert (TL : forall t, tree_locked st t = tree_locked st' t) by (intros t; apply tree_locked_view; exact E).
-  cbn. rewrite D. destruct (nth_error (st_feeds st') w) as [[|]|]; try tauto.
-  rewrite (in_flight_other_view st st' w _ A B D).
-  destruct (h_owt h && in_flight_other st' w (wop_target o)); [tauto|].
+  unfold step. cbn. rewrite D. destruct (nth_error (st_feeds st') w) as [[|]|]; try tauto.
+  rewrite (may_lock_view st st' w _ K).
+  destruct (may_lock st' w (wop_target o)); [|tauto].
+  assert (OM : forall (a b : option (state * wres)) (f g : state * wres -> state), (a = None <-> b = None) ->
+             (option_map f a = None <-> option_map g b = None)).
+  { intros [x|] [y|] f g; cbn; intros [P Q]; split; intros X; try discriminate; auto; try (specialize (P eq_refl); discriminate); try (specialize (Q eq_refl); discriminate). }
+  apply OM.
   destruct o as [p v ts|d ts order|d]; cbn.
   - destruct (negb _); [tauto|]. rewrite AG. destruct (h_agree h && negb _); [tauto|].
     rewrite C. destruct (tlookup p (st_tree st')) as [l|].
@@ -73,12 +73,21 @@ Theorem write_ignores_subscribers h st st' w o :
   forall s1 s1', step h st (LWrite w o) = Some s1 -> step h st' (LWrite w o) = Some s1' ->
     st_leaves s1 = st_leaves s1' /\ st_dels s1 = st_dels s1' /\ st_tree s1 = st_tree s1' /\ st_feeds s1 = st_feeds s1'.
 Proof.
-  unfold writer_view. intros H. inversion H as [[A B C D E F]].
+  unfold writer_view. intros H. inversion H as [[A B C D K E F]].
   assert (AG : forall p, agree_on st p = agree_on st' p) by (intros p; apply agree_on_ext; exact F).
   assert (TL : forall t, tree_locked st t = tree_locked st' t) by (intros t; apply tree_locked_view; exact E).
-  cbn. rewrite D. destruct (nth_error (st_feeds st') w) as [[|]|]; try discriminate.
-  rewrite (in_flight_other_view st st' w _ A B D).
-  destruct (h_owt h && in_flight_other st' w (wop_target o)); [discriminate|].
+  unfold step. cbn. rewrite D. destruct (nth_error (st_feeds st') w) as [[|]|]; try discriminate.
+  rewrite (may_lock_view st st' w _ K).
+  destruct (may_lock st' w (wop_target o)); [|discriminate].
+  assert (OM : forall (a b : option (state * wres)) t,
+             (forall x y, a = Some x -> b = Some y ->
+                st_leaves (fst x) = st_leaves (fst y) /\ st_dels (fst x) = st_dels (fst y) /\
+                st_tree (fst x) = st_tree (fst y) /\ st_feeds (fst x) = st_feeds (fst y)) ->
+             forall s1 s1', option_map (fun sr => set_lock (fst sr) w t) a = Some s1 ->
+                            option_map (fun sr => set_lock (fst sr) w t) b = Some s1' ->
+             st_leaves s1 = st_leaves s1' /\ st_dels s1 = st_dels s1' /\ st_tree s1 = st_tree s1' /\ st_feeds s1 = st_feeds s1').
+  { intros [x|] [y|] t P s1 s1'; cbn; try discriminate. intros [= <-] [= <-]. cbn. apply P; reflexivity. }
+  apply OM. clear OM.
   destruct o as [p v ts|d ts order|d]; cbn.
   - destruct (negb _); [discriminate|]. rewrite AG. destruct (h_agree h && negb _); [discriminate|].
     rewrite C. destruct (tlookup p (st_tree st')) as [l|].
@@ -99,7 +108,7 @@ Qed.
 (** the subscriber a label belongs to *)
 Definition sub_label (lb : label) : option nat :=
   match lb with
-  | LWrite _ _ | LFeed _ => None
+  | LWrite _ _ | LFeed _ | LUnlock _ => None
   | LReg s | LRegDone s | LWalkBegin s | LVisit s _ | LWalkEnd s | LSync s
   | LDeq s | LRead s | LSent s | LTimeout s => Some s
   end.
@@ -190,11 +199,11 @@ Proof.
   { intros s f H Hf sbx Hin. apply with_sub_inv in H as (sb & sb' & Hsb & Hfs & ->). cbn in Hin.
     apply In_upd_nth in Hin as [Hin|(x & Hx & ->)]; auto. rewrite Hsb in Hx. inversion Hx; subst.
     eapply Hf; eauto. apply Q. eapply nth_error_In; eauto. }
-  destruct lb as [w o|w|s|s|s|s p0|s|s|s|s|s|s]; cbn in Hs.
+  destruct lb as [w o|w|s|s|s|s p0|s|s|s|s|s|s|w]; unfold step in Hs; cbn in Hs.
   - destruct (nth_error (st_feeds st) w) as [[|]|]; try discriminate.
-    destruct (h_owt h && _); [discriminate|].
+    destruct (may_lock st w (wop_target o)); [|discriminate].
     destruct (write h st w o) as [[st1 r]|] eqn:Hw; [|discriminate]. cbn in Hs. inversion Hs; subst.
-    intros sb Hin. rewrite (write_subs _ _ _ _ _ _ Hw) in Hin. auto.
+    intros sb Hin. cbn in Hin. rewrite (write_subs _ _ _ _ _ _ Hw) in Hin. auto.
   - destruct (nth_error (st_feeds st) w) as [[|it rest]|]; try discriminate. inversion Hs; subst.
     intros sb Hin. cbn in Hin. apply in_map_iff in Hin as (sb0 & <- & Hin).
     unfold deliver. destruct (item_pat st it); [|auto]. destruct (s_end sb0); [auto|]. cbn.
@@ -223,6 +232,8 @@ Proof.
     destruct (s_out sb); [|discriminate]. intros [= <-]; auto.
   - eapply SUB; eauto. intros sb sb'; cbn beta. destruct (s_end sb); [discriminate|].
     destruct (s_out sb) as [[]|]; try discriminate; intros [= <-]; auto.
+  - destruct (nth_error (st_feeds st) w) as [[|]|]; try discriminate.
+    destruct (lock_of st w); [|discriminate]. inversion Hs; subst. exact Q.
 Qed.
 
 (** In every reachable state (ANY hypotheses, any stall pattern) a queue holds
@@ -235,9 +246,9 @@ Proof.
   assert (Q0 : queues_nodup (init nw subs)).
   { intros sb Hin. cbn in Hin. apply in_map_iff in Hin as ([qs uo] & <- & _). cbn.
     destruct uo; cbn; repeat constructor. intros []. }
-  revert Q0. generalize (init nw subs). induction sch as [|lb sch IH]; intros s0 Q Hr; cbn in Hr.
+  revert Q0. generalize (init nw subs). unfold run. induction sch as [|lb sch IH]; intros s0 Q Hr; cbn in Hr.
   - inversion Hr; subst; auto.
-  - destruct (step h s0 lb) as [s1|] eqn:E; [|discriminate]. apply (IH s1); auto. eapply step_queues_nodup; eauto.
+  - fold (step h s0 lb) in Hr. destruct (step h s0 lb) as [s1|] eqn:E; [|discriminate]. apply (IH s1); auto. eapply step_queues_nodup; eauto.
 Qed.
 
 Definition n_leaf (l : list item) : nat := List.length (filter (fun it => match it with ILeaf _ => true | _ => false end) l).
@@ -402,10 +413,10 @@ Proof.
     - rewrite nth_error_upd_nth_eq, Hx. cbn. rewrite Hsb in Hx. inversion Hx; subst x.
       destruct (Hf _ _ Hfx He). eauto.
     - rewrite nth_error_upd_nth_neq by auto. eauto. }
-  destruct lb as [w o|w|s0|s0|s0|s0 p0|s0|s0|s0|s0|s0|s0]; cbn in Hs.
+  destruct lb as [w o|w|s0|s0|s0|s0 p0|s0|s0|s0|s0|s0|s0|w]; unfold step in Hs; cbn in Hs.
   - destruct (nth_error (st_feeds st) w) as [[|]|]; try discriminate.
-    destruct (h_owt h && _); [discriminate|].
-    destruct (write h st w o) as [[st1 r]|] eqn:Hw; [|discriminate]. cbn in Hs. inversion Hs; subst.
+    destruct (may_lock st w (wop_target o)); [|discriminate].
+    destruct (write h st w o) as [[st1 r]|] eqn:Hw; [|discriminate]. cbn in Hs. inversion Hs; subst. cbn.
     rewrite (write_subs _ _ _ _ _ _ Hw). eauto.
   - destruct (nth_error (st_feeds st) w) as [[|it rest]|]; try discriminate. inversion Hs; subst. cbn.
     rewrite nth_error_map, Hsb. cbn. rewrite (deliver_skips_ended _ _ _ He). eauto.
@@ -425,6 +436,8 @@ Proof.
   - eapply SUB; eauto. intros x y; cbn beta. intros H E. rewrite E in H. discriminate.
   - eapply SUB; eauto. intros x y; cbn beta. intros H E. rewrite E in H. discriminate.
   - eapply SUB; eauto. intros x y; cbn beta. intros H E. rewrite E in H. discriminate.
+  - destruct (nth_error (st_feeds st) w) as [[|]|]; try discriminate.
+    destruct (lock_of st w); [|discriminate]. inversion Hs; subst. cbn. eauto.
 Qed.
 
 (** ** A scenario: one subscriber stalled for ever, one live; the writer and
@@ -434,19 +447,19 @@ Definition st_path2 : path := ["t1"; "c"]%string.
 Definition stall_schedule : list label :=
   [LReg 0; LRegDone 0; LWalkBegin 0; LWalkEnd 0; LSync 0; LDeq 0; LRead 0; LSent 0;
    LReg 1; LRegDone 1; LWalkBegin 1; LWalkEnd 1; LSync 1; LDeq 1; LRead 1; LSent 1;
-   LWrite 0 (WUpd kf_path 1 1); LFeed 0;
+   LWrite 0 (WUpd kf_path 1 1); LFeed 0; LUnlock 0;
    LDeq 0; LRead 0;                              (* subscriber 0 is now inside Send: stalled *)
    LDeq 1; LRead 1; LSent 1;                     (* subscriber 1 goes on *)
-   LWrite 0 (WUpd kf_path 2 2); LFeed 0; LWrite 0 (WUpd st_path2 1 3); LFeed 0;
-   LWrite 0 (WUpd kf_path 3 4); LFeed 0; LWrite 0 (WUpd kf_path 4 5); LFeed 0;
+   LWrite 0 (WUpd kf_path 2 2); LFeed 0; LUnlock 0; LWrite 0 (WUpd st_path2 1 3); LFeed 0; LUnlock 0;
+   LWrite 0 (WUpd kf_path 3 4); LFeed 0; LUnlock 0; LWrite 0 (WUpd kf_path 4 5); LFeed 0; LUnlock 0;
    LDeq 1; LRead 1; LSent 1; LDeq 1; LRead 1; LSent 1;
    LTimeout 0].
 Definition stall_subs : list (list path * bool) := [([["t1"]%string], false); ([["t1"]%string], false)].
 Definition stall_state : state :=
-  match run (mkHyps true true false) (init 1 stall_subs) stall_schedule with Some s => s | None => init 1 stall_subs end.
+  match run (mkHyps true false) (init 1 stall_subs) stall_schedule with Some s => s | None => init 1 stall_subs end.
 
 Example stall_example :
-  reachable (mkHyps true true false) 1 stall_subs stall_state /\
+  reachable (mkHyps true false) 1 stall_subs stall_state /\
   exists sb0 sb1, nth_error (st_subs stall_state) 0 = Some sb0 /\ nth_error (st_subs stall_state) 1 = Some sb1 /\
     s_end sb0 = true /\ s_sent sb0 = [RSync] /\
     s_queue sb0 = [(ILeaf 0, 2%nat); (ILeaf 1, 0%nat)] /\
